@@ -451,7 +451,7 @@ def val_eq(x, y):
         if x.idx != y.idx:
             return False
         return b_and(*[val_eq(p, q) for p, q in zip(x.f, y.f)]) if x.f else True
-    if isinstance(x, Tendril) and isinstance(y, Tendril):
+    if isinstance(x, (Tendril, Str, Atom)) and isinstance(y, (Tendril, Str, Atom)):
         return seq_eq(x.ch, y.ch)
     if isinstance(x, Atom) and isinstance(y, Atom):
         return seq_eq(x.ch, y.ch)
@@ -461,6 +461,10 @@ def val_eq(x, y):
         if isinstance(x, int) and isinstance(y, int):
             return x == y
         return to_bv(x, 32) == to_bv(y, 32)
+    if isinstance(x, VecM) and isinstance(y, VecM):
+        if len(x.v) != len(y.v):
+            return False
+        return b_and(*[val_eq(p, q) for p, q in zip(x.v, y.v)]) if x.v else True
     if isinstance(x, (Tup, Struct)) and type(x) is type(y) and len(x.f) == len(y.f):
         return b_and(*[val_eq(p, q) for p, q in zip(x.f, y.f)]) if x.f else True
     raise Unsupported("equality of %r and %r" % (x, y))
@@ -1032,6 +1036,8 @@ def bq_eat(m, a, c):
 def deref_special(m, v):
     if isinstance(v, Guard):
         return v.p
+    if isinstance(v, Str):
+        return Ptr([v], 0)          # a &str is held as the Str itself; *s / &*s name the same string
     raise Unsupported("deref of %r" % (v,))
 
 
@@ -1069,11 +1075,38 @@ def index_special(m, v):
 M["index_special"] = index_special
 
 
+STATIC_ATOMS = {}     # bytes -> index in its static set (strings longer than 7 bytes; shorter ones are packed inline)
+DYNAMIC_ATOMS = {}
+
+
+def load_static_atoms(generated_rs):
+    """string_cache codegen output of web_atoms: `pub const ATOM_<SET>__<hex bytes> : <Set> = <Set> :: pack_static (<n>u32)`"""
+    STATIC_ATOMS.clear()
+    txt = open(generated_rs, errors="replace").read()
+    for mm in re.finditer(r"pub const ATOM_[A-Z]+_((?:_[0-9A-F]{2})*) : \w+ = \w+ :: pack_static \((\d+)u32\)", txt):
+        key = bytes(int(h, 16) for h in mm.group(1).split("_") if h)
+        n = int(mm.group(2))
+        if key in STATIC_ATOMS and STATIC_ATOMS[key] != n:
+            STATIC_ATOMS[key] = None
+        else:
+            STATIC_ATOMS[key] = n
+    return len(STATIC_ATOMS)
+
+
 def atom_pack(a):
     """string_cache's 64-bit representation of an atom that is not in a static set: inline for <= 7 bytes"""
     bs = byte_view(a.ch)
     if len(bs) > 7:
-        raise Unsupported("64-bit representation of an atom longer than 7 bytes (static/dynamic atom)")
+        if not all(isinstance(b, int) for b in bs):
+            raise Unsupported("64-bit representation of a symbolic atom longer than 7 bytes")
+        key = bytes(bs)
+        if key in STATIC_ATOMS:
+            if STATIC_ATOMS[key] is None:
+                raise Unsupported("atom %r is in two static sets with different indices" % key)
+            return (STATIC_ATOMS[key] << 32) | 2
+        # dynamic atom: a pointer (tag 00), equal exactly for equal strings, different from every static / inline value
+        DYNAMIC_ATOMS.setdefault(key, (len(DYNAMIC_ATOMS) + 1) << 40)
+        return DYNAMIC_ATOMS[key]
     if all(isinstance(b, int) for b in bs):
         v = (len(bs) << 4) | 1
         for i, b in enumerate(bs):
@@ -2165,12 +2198,77 @@ def pull(m, it):
             return None
         it.n += 1
         return Tup([it.n - 1, x])
+    if isinstance(it, PeekM):
+        if it.buf:
+            return it.buf.pop(0)
+        return pull(m, it.it)
+    if isinstance(it, SkipM):
+        while it.n > 0:
+            it.n -= 1
+            if pull(m, it.it) is None:
+                return None
+        return pull(m, it.it)
+    if isinstance(it, TakeM):
+        if it.n <= 0:
+            return None
+        it.n -= 1
+        return pull(m, it.it)
+    if isinstance(it, ChainIt):
+        x = pull(m, it.a)
+        return x if x is not None else pull(m, it.b)
+    if isinstance(it, ClonedM):
+        x = pull(m, it.it)
+        return None if x is None else clone_val(deref(x) if isinstance(x, Ptr) else x)
+    if isinstance(it, Struct):
+        f = m.prog.by_key.get("<%s as Iterator>::next" % it.ty)
+        if f is None:
+            raise Unsupported("iteration over %r" % (it,))
+        r = m.run_fn(f, [Ptr([it], 0)])
+        return r.f[0] if r.variant == "Some" else None
+    if isinstance(it, Enum) and it.ty == "Option":       # Option as an iterator (chain(Some(x)))
+        if it.variant == "Some":
+            x = it.f[0]
+            it.variant, it.idx, it.f = "None", 0, []
+            return x
+        return None
     raise Unsupported("iteration over %r" % (it,))
+
+
+class PeekM:
+    __slots__ = ("it", "buf")
+
+    def __init__(self, it):
+        self.it, self.buf = it, []
+
+
+class SkipM:
+    __slots__ = ("it", "n")
+
+    def __init__(self, it, n):
+        self.it, self.n = it, n
+
+
+class TakeM(SkipM):
+    __slots__ = ()
+
+
+class ChainIt:
+    __slots__ = ("a", "b")
+
+    def __init__(self, a, b):
+        self.a, self.b = a, b
+
+
+class ClonedM:
+    __slots__ = ("it",)
+
+    def __init__(self, it):
+        self.it = it
 
 
 def _is_model_iter(x):
     x = deref(x) if isinstance(x, Ptr) else x
-    return isinstance(x, (Iter, ListIter, FilterM, MapIt, EnumM))
+    return isinstance(x, (Iter, ListIter, FilterM, MapIt, EnumM, PeekM, SkipM, ChainIt, ClonedM, Struct))
 
 
 def _need_iter(a, c):
@@ -2303,6 +2401,8 @@ def g_rev(m, a, c):
 
 @model("*::into_iter")
 def g_into_iter(m, a, c):
+    if isinstance(a[0], Struct):
+        return a[0]                # a crate type that implements Iterator: the blanket IntoIterator is the identity
     _need_iter(a, c)
     return a[0]
 
@@ -2590,3 +2690,384 @@ def vec_extend(m, a, c):
             v.append(x)
     v.extend(list(seq_of(src)))
     return UNIT
+
+
+from . import domsink  # noqa: E402  (TreeSink model DOM; registers its models over the recorder above)
+
+
+# ---------------------------------------------------------------- Default by type text (Cell / RefCell are transparent)
+def default_of_type(m, ty):
+    ty = ty.strip()
+    mm = re.match(r"^(?:std::cell::|core::cell::)?(?:RefCell|Cell)<(.*)>$", ty)
+    if mm:
+        return default_of_type(m, mm.group(1))
+    head = re.sub(r"^(?:\w+::)*", "", ty.split("<", 1)[0])
+    if head in ("Vec", "VecDeque"):
+        return VecM()
+    if head == "Option":
+        return none()
+    if head == "bool":
+        return False
+    if head in ("u8", "u16", "u32", "u64", "usize", "i8", "i16", "i32", "i64", "isize"):
+        return 0
+    if head in ("Tendril", "StrTendril"):
+        return Tendril()
+    if head in ("HashSet",):
+        return SetM()
+    if head in ("BTreeMap", "HashMap"):
+        return MapM()
+    f = m.prog.by_key.get("<%s as Default>::default" % head)
+    if f is not None:
+        return m.run_fn(f, [])
+    raise Unsupported("Default for type %s" % ty)
+
+
+@model("<RefCell as Default>::default", "<Cell as Default>::default")
+def cell_default(m, a, c):
+    mm = re.match(r"^<(.*) as (?:std::default::)?Default>::default$", c.strip())
+    if not mm:
+        raise Unsupported("Default callee %s" % c)
+    return default_of_type(m, mm.group(1))
+
+
+@model("Ref::filter_map", "RefMut::filter_map")
+def guard_filter_map(m, a, c):
+    g, clo = a
+    r = m.prog.call_closure(m, clo, [g.p])
+    if r.variant == "Some":
+        ng = Guard(r.f[0], g.cellkey, g.mut)
+        g.alive = False
+        return Enum("Result", "Ok", 0, [ng])
+    return Enum("Result", "Err", 1, [g])
+
+
+# ---------------------------------------------------------------- more Option / Result combinators
+def _call1(m, clo, args):
+    return m.prog.call_closure(m, clo if isinstance(clo, (Ptr, Closure, FnPtr)) else Ptr([clo], 0), args)
+
+
+@model("Option::unwrap_or_else")
+def option_unwrap_or_else(m, a, c):
+    return a[0].f[0] if a[0].variant == "Some" else _call1(m, a[1], [])
+
+
+@model("Option::unwrap_or_default")
+def option_unwrap_or_default(m, a, c):
+    if a[0].variant == "Some":
+        return a[0].f[0]
+    mm = re.match(r"^Option::<(.*)>::unwrap_or_default", c.strip())
+    return default_of_type(m, mm.group(1)) if mm else 0
+
+
+@model("Option::is_some_and")
+def option_is_some_and(m, a, c):
+    return m.branch_bool(_call1(m, a[1], [a[0].f[0]]), "is_some_and") if a[0].variant == "Some" else False
+
+
+@model("Option::is_none_or")
+def option_is_none_or(m, a, c):
+    return m.branch_bool(_call1(m, a[1], [a[0].f[0]]), "is_none_or") if a[0].variant == "Some" else True
+
+
+@model("Option::map_or")
+def option_map_or(m, a, c):
+    return _call1(m, a[2], [a[0].f[0]]) if a[0].variant == "Some" else a[1]
+
+
+@model("Option::map_or_else")
+def option_map_or_else(m, a, c):
+    return _call1(m, a[2], [a[0].f[0]]) if a[0].variant == "Some" else _call1(m, a[1], [])
+
+
+@model("Option::or_else")
+def option_or_else(m, a, c):
+    return a[0] if a[0].variant == "Some" else _call1(m, a[1], [])
+
+
+@model("Option::or")
+def option_or(m, a, c):
+    return a[0] if a[0].variant == "Some" else a[1]
+
+
+@model("Option::and")
+def option_and(m, a, c):
+    return a[1] if a[0].variant == "Some" else none()
+
+
+@model("Option::filter")
+def option_filter(m, a, c):
+    if a[0].variant == "Some" and m.branch_bool(_call1(m, a[1], [Ptr([a[0].f[0]], 0)]), "Option::filter"):
+        return a[0]
+    return none()
+
+
+@model("Option::ok_or")
+def option_ok_or(m, a, c):
+    return Enum("Result", "Ok", 0, [a[0].f[0]]) if a[0].variant == "Some" else Enum("Result", "Err", 1, [a[1]])
+
+
+@model("Option::ok_or_else")
+def option_ok_or_else(m, a, c):
+    return Enum("Result", "Ok", 0, [a[0].f[0]]) if a[0].variant == "Some" else Enum("Result", "Err", 1, [_call1(m, a[1], [])])
+
+
+@model("Option::replace")
+def option_replace(m, a, c):
+    p = deref_ptr(a[0])
+    old = p.load()
+    p.store(some(a[1]))
+    return old
+
+
+@model("Option::insert", "Option::get_or_insert")
+def option_insert(m, a, c):
+    p = deref_ptr(a[0])
+    cur = p.load()
+    if c.split("::")[-1].startswith("get_or_insert") and cur.variant == "Some":
+        return Ptr(cur.f, 0)
+    v = some(a[1])
+    p.store(v)
+    return Ptr(v.f, 0)
+
+
+@model("Result::ok")
+def result_ok(m, a, c):
+    return some(a[0].f[0]) if a[0].variant == "Ok" else none()
+
+
+@model("Result::err")
+def result_err(m, a, c):
+    return some(a[0].f[0]) if a[0].variant == "Err" else none()
+
+
+@model("Result::is_ok")
+def result_is_ok(m, a, c):
+    return deref(a[0]).variant == "Ok"
+
+
+@model("Result::is_err")
+def result_is_err(m, a, c):
+    return deref(a[0]).variant == "Err"
+
+
+@model("Result::map")
+def result_map(m, a, c):
+    return Enum("Result", "Ok", 0, [_call1(m, a[1], [a[0].f[0]])]) if a[0].variant == "Ok" else a[0]
+
+
+@model("Result::map_err")
+def result_map_err(m, a, c):
+    return Enum("Result", "Err", 1, [_call1(m, a[1], [a[0].f[0]])]) if a[0].variant == "Err" else a[0]
+
+
+@model("Result::unwrap_or_else")
+def result_unwrap_or_else(m, a, c):
+    return a[0].f[0] if a[0].variant == "Ok" else _call1(m, a[1], [a[0].f[0]])
+
+
+# ---------------------------------------------------------------- more char / u8 classification
+def _cls(name, pred):
+    def f(m, a, c, _p=pred):
+        return _p(deref(a[0]))
+    for ty in ("char", "u8"):
+        M[("char::methods::<impl char>::" if ty == "char" else "core::num::<impl u8>::") + name] = f
+
+
+_cls("is_ascii_whitespace", lambda x: b_or(ch_eq(x, 0x20), ch_eq(x, 0x09), ch_eq(x, 0x0A), ch_eq(x, 0x0C), ch_eq(x, 0x0D)))
+_cls("is_ascii_uppercase", lambda x: in_range(x, 65, 90))
+_cls("is_ascii_lowercase", lambda x: in_range(x, 97, 122))
+_cls("is_ascii_hexdigit", lambda x: b_or(in_range(x, 48, 57), in_range(x, 65, 70), in_range(x, 97, 102)))
+_cls("is_ascii_punctuation", lambda x: b_or(in_range(x, 33, 47), in_range(x, 58, 64), in_range(x, 91, 96), in_range(x, 123, 126)))
+_cls("is_ascii_control", lambda x: b_or(in_range(x, 0, 31), ch_eq(x, 127)))
+_cls("is_ascii_graphic", lambda x: in_range(x, 33, 126))
+lower_ascii = ascii_lower
+
+
+@model("*::eq")
+def g_eq(m, a, c):
+    return val_eq(a[0], a[1])
+
+
+@model("*::ne")
+def g_ne(m, a, c):
+    return b_not(val_eq(a[0], a[1]))
+
+
+@model("*::peekable")
+def g_peekable(m, a, c):
+    _need_iter(a, c)
+    return PeekM(a[0])
+
+
+@model("Peekable::peek")
+def peekable_peek(m, a, c):
+    it = deref(a[0])
+    if not it.buf:
+        x = pull(m, it.it)
+        if x is None:
+            return none()
+        it.buf.append(x)
+    return some(Ptr(it.buf, 0))
+
+
+@model("*::skip")
+def g_skip(m, a, c):
+    _need_iter(a, c)
+    if is_sym(a[1]):
+        raise Unsupported("symbolic skip count")
+    return SkipM(a[0], a[1])
+
+
+@model("*::take")
+def g_take(m, a, c):
+    _need_iter(a, c)
+    if is_sym(a[1]):
+        raise Unsupported("symbolic take count")
+    return TakeM(a[0], a[1])
+
+
+@model("*::cloned", "*::copied")
+def g_cloned(m, a, c):
+    _need_iter(a, c)
+    return ClonedM(a[0])
+
+
+@model("*::rposition")
+def g_rposition(m, a, c):
+    _need_iter(a, c)
+    items = []
+    while True:
+        x = pull(m, a[0])
+        if x is None:
+            break
+        items.append(x)
+    for i in range(len(items) - 1, -1, -1):
+        if m.branch_bool(m.prog.call_closure(m, Ptr([a[1]], 0), [items[i]]), "rposition"):
+            return some(i)
+    return none()
+
+
+for _n in ("Peekable", "Skip", "Take", "Cloned", "Copied", "Chain", "Map", "Enumerate", "Filter"):
+    M.setdefault("<%s as Iterator>::next" % _n, g_next)
+    M.setdefault("<%s as IntoIterator>::into_iter" % _n, g_into_iter)
+
+
+@model("Tendril::pop_front_char_run")
+def tendril_pop_front_char_run(m, a, c):
+    t = T(a[0])
+    if not t.ch:
+        return none()
+    clo = a[1]
+    cls = _call1(m, clo, [t.ch[0]])
+    n = 1
+    while n < len(t.ch):
+        k = _call1(m, clo, [t.ch[n]])
+        if not m.branch_bool(val_eq(k, cls), "char run class"):
+            break
+        n += 1
+    run = Tendril(t.ch[:n])
+    t.ch[:] = t.ch[n:]
+    return some(Tup([run, cls]))
+
+
+@model("<Vec as Index>::index", "<Vec as IndexMut>::index_mut", "<VecDeque as Index>::index", "<VecDeque as IndexMut>::index_mut")
+def vec_index(m, a, c):
+    v = V(a[0]).v
+    i = a[1]
+    if is_sym(i):
+        raise Unsupported("symbolic Vec index")
+    if isinstance(i, Struct):
+        raise Unsupported("Vec range index %r" % (i,))
+    if not 0 <= i < len(v):
+        raise Panic("index out of bounds: the len is %d but the index is %d" % (len(v), i))
+    return Ptr(v, i)
+
+
+@model("core::str::<impl str>::eq_ignore_ascii_case", "str::eq_ignore_ascii_case", "string_cache::atom::Atom::eq_ignore_ascii_case", "Atom::eq_ignore_ascii_case")
+def str_eq_ignore_ascii_case(m, a, c):
+    x, y = as_str(a[0]).ch, as_str(a[1]).ch
+    return seq_eq([ascii_lower(q) for q in x], [ascii_lower(q) for q in y])
+
+
+@model("std::str::<impl str>::to_ascii_lowercase", "alloc::str::<impl str>::to_ascii_lowercase", "str::to_ascii_lowercase")
+def str_to_ascii_lowercase(m, a, c):
+    return Str([ascii_lower(q) for q in as_str(a[0]).ch])
+
+
+def _ord_key(v):
+    """derived Ord on concrete values (Option: None < Some; strings by code points)"""
+    v = deref(v)
+    if isinstance(v, Enum):
+        return (v.idx,) + tuple(_ord_key(x) for x in v.f)
+    if isinstance(v, (Struct, Tup)):
+        return tuple(_ord_key(x) for x in v.f)
+    if isinstance(v, (Atom, Tendril, Str)):
+        if not all(isinstance(q, int) for q in v.ch):
+            raise Unsupported("ordering of symbolic strings")
+        return tuple(v.ch)
+    if isinstance(v, (int, bool)):
+        return int(v)
+    raise Unsupported("ordering of %r" % (v,))
+
+
+@model("slice::<impl [T]>::sort", "core::slice::<impl [T]>::sort", "alloc::slice::<impl [T]>::sort", "core::slice::<impl [T]>::sort_unstable")
+def slice_sort(m, a, c):
+    s_ = seq_of(a[0])
+    items = sorted(list(s_), key=_ord_key)
+    for i, x in enumerate(items):
+        s_[i] = x
+    return UNIT
+
+
+def _attr_concrete(v):
+    try:
+        for at in V(v).v:
+            _ord_key(at)
+        return True
+    except Unsupported:
+        return False
+
+
+@model("Tag::equiv_modulo_attr_order")
+def tag_equiv_modulo_attr_order(m, a, c):
+    x, y = deref(a[0]), deref(a[1])
+    f = m.prog.by_key.get("Tag::equiv_modulo_attr_order")
+    if f is not None and _attr_concrete(x.f[3]) and _attr_concrete(y.f[3]):
+        return m.run_fn(f, a)          # concrete attributes: the crate's own code (clone, sort, compare)
+    # symbolic attribute names / values: sorted lists are equal iff the lists are equal as multisets
+    if not m.branch_bool(b_and(val_eq(x.f[0], y.f[0]), val_eq(x.f[1], y.f[1])), "tag kind and name"):
+        return False
+    xs, ys = list(V(x.f[3]).v), list(V(y.f[3]).v)
+    if len(xs) != len(ys):
+        return False
+    for at in xs:
+        for j, bt in enumerate(ys):
+            if m.branch_bool(val_eq(at, bt), "attribute equal"):
+                del ys[j]
+                break
+        else:
+            return False
+    return True
+
+
+@model("VecDeque::push_back")
+def vecdeque_push_back(m, a, c):
+    V(a[0]).v.append(a[1])
+    return UNIT
+
+
+@model("VecDeque::push_front")
+def vecdeque_push_front(m, a, c):
+    V(a[0]).v.insert(0, a[1])
+    return UNIT
+
+
+@model("VecDeque::pop_back")
+def vecdeque_pop_back(m, a, c):
+    v = V(a[0])
+    return some(v.v.pop()) if v.v else none()
+
+
+@model("VecDeque::len")
+def vecdeque_len(m, a, c):
+    return len(V(a[0]).v)
